@@ -70,6 +70,12 @@ def run_case(spec):
         C.setdefault("recorded_dt_checks", 0)
         exc = rr.exception
         ups = [u for st in tm.stages for u in st["updates"]]
+        if getattr(mon, "exhaustions", 0):
+            # update() gave up (retries exhausted / refused fixed step): the caller of solve() must see that error
+            C["exhaustion_propagation_checks"] = C.get("exhaustion_propagation_checks", 0) + 1
+            if not (isinstance(exc, RuntimeError) and "failed to converge" in str(exc)):
+                out["violations"].append({"kind": "exhaustion_not_raised_to_caller", "mechanism": "exhaustion_error_swallowed",
+                                          "detail": {"solve_raised": repr(exc)[:200], "returned": type(rr.solution).__name__}})
         if exc is not None:
             if isinstance(exc, RuntimeError) and "failed to converge" in str(exc) and "Screening" not in str(exc):
                 # nothing further may be recorded after the failing update
